@@ -10,8 +10,10 @@ LEVEL = "other"
 LEVEL_TEXT = (
     "Lockset, atomicity (check-then-act in one lock hold), ownership-by-removal and no-re-entrancy rules decided on "
     "every path of every ObjectPool method with the path interpreter, plus the bracket / non-escape rule over all "
-    "PooledClient methods. These are facts about all schedules because they do not depend on the schedule; absence of "
-    "internal errors under interleavings beyond the lock discipline is not decided."
+    "PooledClient methods. These are facts about all schedules because they do not depend on the schedule. What the "
+    "atomic bookkeeping steps add up to is decided on sequential histories (R6 = C09.R8): ObjectPool interpreted on a "
+    "concrete pool under every order of get / release / destroy / clear to a depth bound. Absence of internal errors "
+    "under interleavings *inside* a method beyond the lock discipline is not decided."
 )
 TRUSTED = ["CPython ast", "pmcsa/paths.py", "language guarantee: `with lock:` releases on every exit", "lock_generator() returns a mutual-exclusion context manager"]
 
